@@ -75,6 +75,22 @@ Fixpoint view (ns : list (string * string)) (n : node) : list xnode :=
   | _ => []
   end.
 
+(* the token view of bytes that are READ DIRECTLY into a struct (the unverified pre-decoders: xml.Decoder.Decode on the
+   received bytes, no etree serialisation in between): as [view], but nothing is normalised here -- raw CR / CR LF of the
+   input were turned into LF by the tokenizer already (XmlTok.v), and a U+000D that entered a value through a character
+   reference (&#13; / &#xD;) STAYS.  [view] differs exactly on such values (finding F13, DESIGN.md section 6). *)
+Fixpoint view_direct (ns : list (string * string)) (n : node) : list xnode :=
+  match n with
+  | Elem sp tg attrs kids =>
+      let ns' := push_decls ns attrs in
+      [XElem (translate_name ns' sp tg true) tg
+             (map (fun a => {| xa_space := translate_name ns' (at_space a) (at_key a) false;
+                               xa_local := at_key a; xa_val := at_val a |}) attrs)
+             (flat_map (view_direct ns') kids)]
+  | Text s => [XText s]
+  | _ => []
+  end.
+
 (* ---------- 2. values ---------- *)
 Inductive gval :=
 | GStr (s : string)
@@ -338,6 +354,13 @@ Fixpoint xsize (n : xnode) : nat :=
 (* xml.Unmarshal of the serialisation of [root] into a fresh value of struct type [name] *)
 Definition unmarshal_element (sch : schema) (name : string) (root : node) : res gval :=
   match view [] root with
+  | [x] => unmarshal sch (Datatypes.S (Datatypes.S (height root)) + xsize x) (TStruct name) (GStruct []) x
+  | _ => Err (EOther "no root element")
+  end.
+
+(* Decoder.Decode of the element [root] the token loop consumed from received bytes, into a fresh value of struct type [name] *)
+Definition unmarshal_element_direct (sch : schema) (name : string) (root : node) : res gval :=
+  match view_direct [] root with
   | [x] => unmarshal sch (Datatypes.S (Datatypes.S (height root)) + xsize x) (TStruct name) (GStruct []) x
   | _ => Err (EOther "no root element")
   end.
